@@ -209,20 +209,9 @@ def crosshair_burn_in_task():
 
         rec = Recorder(PROP, task, [AlgorithmWithSamplersMixin.__init__])
         res = run_crosshair("/verif/crosshair_harness/c05_burn_in.py", per_condition_timeout=60)
-        for fn, verdict, detail in res:
-            rec.obligations += 1
-            if verdict == "confirmed":
-                rec.discharged += 1
-            elif verdict == "counterexample":
-                script = f"sys.path.insert(0, '/verif/crosshair_harness')\nimport c05_burn_in as H\ntry:\n    r = H.{detail}\nexcept AssertionError as e:\n    print('postcondition violated', e); sys.exit(1)\nprint(r); sys.exit(0 if r else 1)\n"
-                rec.violation_from_script(fn, f"C05:{fn}", script, what=f"CrossHair counterexample: {detail}")
-            elif verdict == "not_confirmed":
-                rec.best_effort_inconclusive.append(f"{task}:{fn}: CrossHair explored without finding a counterexample but did not exhaust all paths in its budget")
-                rec.discharged += 0
-                rec.obligations -= 1
-            else:
-                rec.inconclusive.append(f"{task}:{fn}: {verdict} {detail[:100]}")
-        rec.sample({"crosshair": [(f, v) for f, v, _ in res]})
+        from vcheck.crosshair_util import record
+
+        record(rec, task, res, "/verif/crosshair_harness/c05_burn_in.py")
         return rec.result()
 
     return guarded(PROP, task, body)
